@@ -238,11 +238,99 @@ func runTPCRetry(c *core.Ctx) {
 				bad = true
 			}
 		}
+		// every replica is a recipient: the per-replica function cannot return without having evaluated the loop condition
+		// (a replica that is skipped - because its acknowledgement of the pre-commit was lost, say - holds the pre-commit
+		// for ever)
+		skip := g.Search(an.Query{ToExit: true, Avoid: func(a ast.Node) bool {
+			if a == condAtom {
+				return true
+			}
+			within := false
+			ast.Inspect(loop.Cond, func(k ast.Node) bool {
+				if k == a {
+					within = true
+				}
+				return true
+			})
+			return within
+		}})
+		c.Check(!skip.Found, "broadcastAbortOrCommit:no-replica-skipped", loop.Pos(), "the per-replica sender always reaches the send loop",
+			"the per-replica sender can return without ever entering the send loop: that replica never receives the Abort / Commit; if it accepted the pre-commit (and only its acknowledgement was lost) it keeps holding it, refuses every other proposer and aborts its own sections for ever")
 		c.Check(tested && !bad, "broadcastAbortOrCommit:retry-until-delivered", loop.Pos(), "a failed send always returns to the loop condition",
 			"after a failed Abort/Commit send the per-replica sender can give up without re-checking the loop condition: an acceptor that holds this proposer's pre-commit and missed the message is never released, so every other proposer is refused there forever (livelock once a quorum needs that replica)")
 	}
 	if found == 0 {
 		c.Lost("broadcastAbortOrCommit:retry-loop", "retry loop with a Send not found")
+	}
+}
+
+func init() {
+	register(&core.Rule{ID: "RPC-REPLY-FRESH", Props: []string{"C11", "C05"}, Floor: 3,
+		Doc: "the reply of a 2PC exchange is decoded into a variable that is fresh for that send (declared in the function literal / loop body that sends): net/rpc decodes replies with gob, and gob does not transmit zero-valued fields, so a reply variable that survives from an earlier exchange keeps its old Accept=true when the new reply says Accept=false - a rejection is counted as an acceptance over RPC and as a rejection in process",
+		Run: runRPCReplyFresh})
+}
+
+func runRPCReplyFresh(c *core.Ctx) {
+	e := EnvOf(c.Prog)
+	n := 0
+	for _, fn := range e.Ix.Funcs() {
+		if fn.Body() == nil || fn.Pkg.Path != an.PkgResources {
+			continue
+		}
+		if rn := an.RecvNamed(fn.Obj); rn == nil || rn.Obj().Name() != "TwoPCArchetypeResource" {
+			continue
+		}
+		info := fn.Pkg.Info
+		var stack []ast.Node
+		ast.Inspect(fn.Body(), func(m ast.Node) bool {
+			if m == nil {
+				stack = stack[:len(stack)-1]
+				return true
+			}
+			stack = append(stack, m)
+			call, ok := m.(*ast.CallExpr)
+			if !ok || len(call.Args) != 2 {
+				return true
+			}
+			cf := an.CalleeFunc(info, call)
+			if cf == nil || cf.Name() != "Send" {
+				return true
+			}
+			arg := an.Unparen(an.ResolveLocal(info, fn.Body(), call.Args[1]))
+			u, isU := arg.(*ast.UnaryExpr)
+			if !isU || u.Op != token.AND {
+				// a pointer that is not the address of a variable taken here: where it points is not decided by this code
+				if _, isPtr := info.TypeOf(call.Args[1]).(*types.Pointer); isPtr {
+					n++
+					c.Bad(fmt.Sprintf("%s:reply#%d", fn.Name(), n), call.Pos(), "the reply of this exchange is decoded through the pointer %s, not into a variable declared for this send: gob leaves fields that the new reply does not transmit at their previous values", an.ExprString(call.Args[1]))
+				}
+				return true
+			}
+			n++
+			key := fmt.Sprintf("%s:reply#%d", fn.Name(), n)
+			v, _ := an.ObjOf(info, u.X).(*types.Var)
+			// innermost enclosing function literal or loop body
+			var scope ast.Node
+			for i := len(stack) - 1; i >= 0 && scope == nil; i-- {
+				switch x := stack[i].(type) {
+				case *ast.FuncLit:
+					scope = x.Body
+				case *ast.ForStmt:
+					scope = x.Body
+				case *ast.RangeStmt:
+					scope = x.Body
+				}
+			}
+			if scope == nil {
+				scope = fn.Body()
+			}
+			fresh := v != nil && !v.IsField() && v.Pos() >= scope.Pos() && v.Pos() < scope.End()
+			c.Check(fresh, key, call.Pos(), "the reply variable is declared by the code that sends", "the reply of this exchange is decoded into "+an.ExprString(u.X)+", which outlives the exchange: gob leaves fields that the new reply does not transmit (Accept=false, Version=0) at their previous values")
+			return true
+		})
+	}
+	if n == 0 {
+		c.Lost("TwoPCArchetypeResource:sends", "no Send(request, &reply) found")
 	}
 }
 
